@@ -54,6 +54,9 @@ class Data:
         return self.name
 
 
+PINF, NINF = "+inf", "-inf"  # symbols of the two infinities (np.inf, -np.inf, float("inf"), math.inf)
+
+
 class OrderType:
     """rank: symbol -> comparable rank (equal rank = equal value); nan: set of symbols that are NaN."""
 
@@ -71,9 +74,11 @@ class OrderType:
         neg = [k for k, c in v.terms.items() if c == -1]
         if len(pos) == 1 and len(neg) == 1 and len(v.terms) == 2:
             a, b = pos[0], neg[0]
-            if a in self.nan or b in self.nan or a not in self.rank or b not in self.rank:
+            rank = dict(self.rank)
+            rank.update({PINF: float("inf"), NINF: float("-inf")})  # the infinities compare above / below every value
+            if a in self.nan or b in self.nan or a not in rank or b not in rank:
                 return "nan"
-            ra, rb = self.rank[a], self.rank[b]
+            ra, rb = rank[a], rank[b]
             return "pos" if ra > rb else "neg" if ra < rb else "zero"
         return "?"
 
@@ -163,6 +168,19 @@ class KernelEval(Evaluator):
                     return super().binop(op, l, r, node)
             return SumV(parts)
         return super().binop(op, l, r, node)
+
+    # the infinities: np.inf / math.inf / float("inf") are symbols that compare above (below) every value of the order type
+    def e_Attribute(self, e, env, fi):
+        if e.attr in ("inf", "Inf", "infty", "PINF", "NINF") and isinstance(e.value, ast.Name) and e.value.id in ("np", "numpy", "math"):
+            return Lin.sym(NINF if e.attr == "NINF" else PINF)
+        return super().e_Attribute(e, env, fi)
+
+    def e_UnaryOp(self, e, env, fi):
+        if isinstance(e.op, ast.USub):
+            v = self.ev(e.operand, env, fi)
+            if isinstance(v, Lin) and set(v.terms) in ({PINF}, {NINF}) and v.const == 0 and list(v.terms.values()) == [1]:
+                return Lin.sym(NINF if PINF in v.terms else PINF)
+        return super().e_UnaryOp(e, env, fi)
 
     def assign(self, t, v, env, fi):
         # numpy semantics of `out[:] = scalar` on a 1-D output modelled as a list
